@@ -1,3 +1,4 @@
 /- C02: detectors realise the counting rules. -/
 import Proofs.C02FourPoint
 import Proofs.C02Fkm
+import Proofs.ThreePointC02
